@@ -12,7 +12,8 @@ import subprocess
 import sys
 import time
 
-REPO = "/repo"
+REPO = "/repo"  # replaced by a scratch worktree with --in-worktree
+ENV_EXTRA = {}
 PROPS = ["C03", "C05", "C08", "C09"]
 
 SB = "src/errorcode/decoding/syndrome_based.rs"
@@ -107,6 +108,7 @@ def run_checks(props):
         t0 = time.time()
         env = dict(os.environ)
         env.setdefault("DMSIM_HANG_MS", "5000")
+        env.update(ENV_EXTRA)
         r = subprocess.run(["/verif/check", p, "quick"], capture_output=True, text=True, env=env)
         viol = [l for l in r.stdout.splitlines() if l.startswith("VIOLATION")]
         classes = [l.strip() for l in r.stdout.splitlines() if l.strip().startswith("class=")]
@@ -128,7 +130,19 @@ def apply_mutant(edits):
 
 
 def main():
+    global REPO
     args = sys.argv[1:]
+    wt = None
+    if "--in-worktree" in args:
+        # leave /repo alone: mutate a scratch worktree of its HEAD and point the checks at it
+        args.remove("--in-worktree")
+        wt = "/tmp/dmsim-sens-wt-%d" % os.getpid()
+        r = sh(f"git -C /repo worktree add --detach {wt} HEAD")
+        if r.returncode != 0:
+            print("cannot create worktree:", r.stderr)
+            sys.exit(2)
+        REPO = wt
+        ENV_EXTRA["DMSIM_REPO"] = wt
     os.makedirs("/verif/sensitivity", exist_ok=True)
     if dirty():
         print("refusing: /repo working tree is not clean")
@@ -180,6 +194,8 @@ def main():
             outname = "results" if not args else "results_partial"
     finally:
         restore()
+        if wt:
+            sh(f"git -C /repo worktree remove --force {wt}; git -C /repo worktree prune")
     json.dump(results, open(f"/verif/sensitivity/{outname}.json", "w"), indent=1)
     with open(f"/verif/sensitivity/{outname}.md", "w") as f:
         f.write("| change | expected | C03 | C05 | C08 | C09 | first class reported |\n|---|---|---|---|---|---|---|\n")
